@@ -68,6 +68,23 @@ def make_case(rng, idx, tier):
                              'do': 'write', 'stream': rng.choice(
                                  ['stdout', 'stderr']),
                              'text': 'noise-%d\n' % idx}]
+    # well-behaved neighbours of the faulty tests: skips of every flavour,
+    # expected failures, and sometimes a test that leaves an uncollectable
+    # object in gc.garbage (the runner then reports garbage after every
+    # following test)
+    for k in keys:
+        for t in tbl[k]:
+            if t['kind'] == 'pass' and rng.random() < 0.2:
+                t['kind'] = rng.choice(['skip_deco', 'skip_setup',
+                                        'skip_body', 'xfail'])
+    if rng.random() < 0.12:
+        k = rng.choice(keys)
+        t = rng.choice(tbl[k])
+        if t['kind'] != 'skip_deco':
+            t.setdefault('actions', []).append(
+                {'ph': 'body' if t['kind'] not in (
+                    'setup_error', 'setup_fail', 'skip_setup') else 'setUp',
+                 'do': 'uncollectable', 'tag': 'c04-%d' % idx})
     plan = {}
     if rng.random() < 0.3:
         ln = rng.choice([ls['name'] for ls in layers])
@@ -101,6 +118,8 @@ def classify_raise(tb, case):
         return 'uxsuccess-bare-test-unpack'
     if 'process.py' in tb and 'cannot unpack' in tb:
         return 'uxsuccess-bare-test-unpack'
+    if "_testMethodName" in tb and 'stopTest' in tb:
+        return 'decorator-skip-test-dict-wiped'
     return 'run-raised'
 
 
@@ -109,7 +128,12 @@ def run_case(case):
     import oracles
     import vworld
     spec, plan, opts = case['spec'], case['plan'], case['opts']
-    w = common.run_world(spec, plan, opts)
+    import gc
+    g0 = len(gc.garbage)
+    try:
+        w = common.run_world(spec, plan, opts)
+    finally:
+        del gc.garbage[g0:]
     viol = []
     counters = {'runs': 1}
     events = w.events
